@@ -307,7 +307,7 @@ def check_vm_pairs(ctx, prog, tag):
                     bad = True
             ctx.ob("C05.B3.vm-opener-has-closer-on-every-path", "%s%s|%s/%s" % (tag, fpath.split("::")[-1], op.split("::")[-1], cl.split("::")[-1]),
                    not bad, "a path from %s to a return skips %s" % (op.split("::")[-1], cl.split("::")[-1]), f.where(o.bb))
-    ctx.floor("C05.B3 opener sites" + tag, n, 1 if tag == "[MIN]" else 3)
+    ctx.floor("C05.B3 opener sites" + tag, n, 0 if tag == "[MIN]" else 3)
     # eval_macro: the context swap is undone
     em = prog.fns.get("minijinja::vm::Executor::eval_macro")
     if em is not None:
@@ -329,6 +329,8 @@ def check_with_execution_state(ctx, prog, tag):
         if k == "minijinja::vm::state::State::with_execution_state":
             wes = f
     if wes is None:
+        if tag == "[MIN]":
+            return
         ctx.need(False, "C05.B4: with_execution_state not found")
     # the closure call
     calls = [c for c in wes.calls() if c.name.startswith("core::ops::function::FnOnce::call_once") or c.indirect]
